@@ -115,3 +115,4 @@ TRUSTED = ["np.linalg.inv / np.linalg.solve: the (unique) inverse / solution for
            "L-EM-LG: exact E-step (posterior mean and covariance) + M-step solving the normal equations never decreases the marginal likelihood of a linear-Gaussian model",
            "np.einsum, batched @, np.outer, np.diagonal as in the NumPy model"]
 ASSUMPTIONS = ["covariances > 0, floor > 0, counts >= 0"]
+XCHECK = ['ivector']
